@@ -259,9 +259,14 @@ impl<T: AsBuffer> BlockConverter<T> for H2BlockConverter<'_> {
                     if !self.check_header_capacity() {
                         return false;
                     }
-                    if let Err(e) = self
-                        .encoder
-                        .encode_header_into((b":path", path.data(buffer)), &mut self.out)
+                    // RFC 9113 §8.5: a CONNECT request carries only :method and
+                    // :authority — :path and :scheme MUST be omitted, a request
+                    // that has them is malformed for the receiving server.
+                    let is_connect = method.data(buffer) == b"CONNECT";
+                    if !is_connect
+                        && let Err(e) = self
+                            .encoder
+                            .encode_header_into((b":path", path.data(buffer)), &mut self.out)
                     {
                         error!(
                             "{} HPACK encoding of :path pseudo-header failed: {:?}",
@@ -273,9 +278,10 @@ impl<T: AsBuffer> BlockConverter<T> for H2BlockConverter<'_> {
                     if !self.check_header_capacity() {
                         return false;
                     }
-                    if let Err(e) = self
-                        .encoder
-                        .encode_header_into((b":scheme", self.scheme), &mut self.out)
+                    if !is_connect
+                        && let Err(e) = self
+                            .encoder
+                            .encode_header_into((b":scheme", self.scheme), &mut self.out)
                     {
                         error!(
                             "{} HPACK encoding of :scheme pseudo-header failed: {:?}",
